@@ -103,6 +103,99 @@ theorem chase_ips (srt : Bytes → Sorter) (tbl : List Entry) (qt : Nat) (orig :
     intro h
     exact key host canon (rw :: tl) (by rw [← heq]; exact find_mem_candidates _ _ _ _) h
 
+/-- Where the canonical name of a result comes from. -/
+theorem chase_canon_src (srt : Bytes → Sorter) (tbl : List Entry) (qt : Nat) (orig : Bytes)
+    (host : Bytes) (visited : List Bytes) (canon : Bytes) :
+    (chase srt tbl qt orig host visited canon).out.canon = canon ∨
+    (chase srt tbl qt orig host visited canon).out.canon = [] ∨
+    ∃ e ∈ tbl, e.typ = .CNAME ∧ e.answer = (chase srt tbl qt orig host visited canon).out.canon := by
+  induction host, visited, canon using chase.induct srt tbl qt orig with
+  | case1 host visited canon fr hnil =>
+    rw [chase_nil _ _ _ _ _ _ _ hnil]; exact Or.inl rfl
+  | case2 host visited canon fr rw tl heq hc hexc =>
+    rw [chase_cons _ _ _ _ _ _ _ rw tl heq, if_pos hc, if_pos hexc]; exact Or.inr (Or.inl rfl)
+  | case3 host visited canon fr rw tl heq hc hexc hself =>
+    rw [chase_cons _ _ _ _ _ _ _ rw tl heq, if_pos hc, if_neg hexc, if_pos hself]
+    right; right
+    refine ⟨rw, findRewritesWith_subset (srt host) tbl host qt rw (by rw [heq]; simp), hc.2, ?_⟩
+    simp only [setRewriteResult_canon]
+    exact hself.1.symm
+  | case4 host visited canon fr rw tl heq hc hexc hself hv =>
+    rw [chase_cons _ _ _ _ _ _ _ rw tl heq, if_pos hc, if_neg hexc, if_neg hself, if_pos hv]
+    exact Or.inl rfl
+  | case5 host visited canon fr rw tl heq hc hexc hself hv ih =>
+    rw [chase_cons _ _ _ _ _ _ _ rw tl heq, if_pos hc, if_neg hexc, if_neg hself, if_neg hv]
+    rcases ih with h | h | h
+    · right; right
+      exact ⟨rw, findRewritesWith_subset (srt host) tbl host qt rw (by rw [heq]; simp), hc.2, h.symm⟩
+    · exact Or.inr (Or.inl h)
+    · exact Or.inr (Or.inr h)
+  | case6 host visited canon fr rw tl heq hc =>
+    rw [chase_cons _ _ _ _ _ _ _ rw tl heq, if_neg hc]
+    left
+    simp only [setRewriteResult_canon]
+
+theorem lowerNames_map {tbl : List Entry} (hl : Spec.LowerNames tbl) : tbl.map Spec.foldEntry = tbl := by
+  have : tbl.map Spec.foldEntry = tbl.map id := List.map_congr_left (fun e he => hl e he)
+  rw [this, List.map_id]
+
+theorem lowerNames_answer {tbl : List Entry} (hl : Spec.LowerNames tbl) {e : Entry} (he : e ∈ tbl)
+    (hc : e.typ = .CNAME) : lower e.answer = e.answer := by
+  have := congrArg Entry.answer (hl e he)
+  simpa [Spec.foldEntry, hc] using this
+
+/-- With lower-case names in the table the canonical name of a result is in
+lower case. -/
+theorem process_canon_lower (srt : Bytes → Sorter) (tbl : List Entry) (h : Bytes) (q : Nat)
+    (hl : Spec.LowerNames tbl) :
+    Spec.foldOut (processRewritesWith srt tbl h q) = processRewritesWith srt tbl h q := by
+  have hc : lower (processRewritesWith srt tbl h q).canon = (processRewritesWith srt tbl h q).canon := by
+    unfold processRewritesWith processRun
+    split
+    · rfl
+    · rcases chase_canon_src srt tbl q h h [] [] with h1 | h1 | ⟨e, he, hc, h1⟩
+      · rw [h1]; rfl
+      · rw [h1]; rfl
+      · rw [← h1]; exact lowerNames_answer hl he hc
+  unfold Spec.foldOut
+  rw [hc]
+
+theorem normalize_domain (r : Raw) : (normalize r).domain = lower r.domain := by
+  unfold normalize
+  simp only
+  split
+  · rfl
+  · split
+    · rfl
+    · split <;> rfl
+
+theorem normalize_answer (r : Raw) : (normalize r).answer = r.answer := by
+  unfold normalize
+  simp only
+  split
+  · rfl
+  · split
+    · rfl
+    · split <;> rfl
+
+/-- `normalize` lower-cases the patterns; if the configured CNAME answers are in
+lower case too, the prepared table has lower-case names. -/
+theorem prepare_lowerNames (rs : List Raw)
+    (hans : ∀ r ∈ rs, (normalize r).typ = .CNAME → lower r.answer = r.answer) :
+    Spec.LowerNames (prepare rs) := by
+  intro e he
+  unfold prepare at he
+  obtain ⟨r, hr, rfl⟩ := List.mem_map.mp he
+  unfold Spec.foldEntry
+  have hd : lower (normalize r).domain = (normalize r).domain := by
+    rw [normalize_domain, lower_idem]
+  have ha : (if (normalize r).typ = .CNAME then lower (normalize r).answer else (normalize r).answer) =
+      (normalize r).answer := by
+    split
+    · next hc => rw [normalize_answer]; exact hans r hr hc
+    · rfl
+  rw [hd, ha]
+
 /-- A non-rewritten result is judged by the spec on its `rewritten` flag alone. -/
 theorem finalOK_not_rewritten (tbl : List Entry) (qt : Nat) (cur : Bytes) (hopped : Bool) (o : Out)
     (ho : o.rewritten = false) (h : Spec.finalOK tbl qt cur hopped o = true) :
